@@ -53,6 +53,8 @@ func main() {
 		os.Exit(cmdDump(os.Args[2:]))
 	case "selftest":
 		os.Exit(cmdSelftest(os.Args[2:]))
+	case "anchors":
+		os.Exit(cmdAnchors(os.Args[2:]))
 	case "list":
 		ids := []string{}
 		for k := range registry {
